@@ -178,6 +178,9 @@ def run(tier='quick'):
                         'inserts the new position into, on every path (also when the crate becomes a root)',
                   floor=1)
     old_position_removed(prog, cg, eff, chk, T7)
+    T10 = chk.rule('T10', 'remove_crate removes the whole subtree of the crate, so that no live crate keeps a removed '
+                          'parent', floor=2)
+    subtree_removed(prog, cg, eff, chk, T10)
     T9 = chk.rule('T9', 'the tables that carry the crate forest are created as the reference dump of the version '
                         'defines them - in particular the id column of the 2.x Playlist table is AUTOINCREMENT, so '
                         'the id of a removed crate is never handed out again', floor=20)
@@ -192,6 +195,70 @@ def run(tier='quick'):
     return chk.finish('value-flow interpretation of the structural crate queries and mutators of both '
                       'implementations down to the parsed SQL (tables, key columns bound to the handle id, '
                       'returned columns, event order of reads / validator calls / throws / writes)')
+
+
+def subtree_removed(prog, cg, eff, chk, T10):
+    """After remove_crate(c) no live crate may keep a removed parent: the whole subtree of c has to
+    go.  Decided from the statements remove_crate reaches and the DELETE triggers of every
+    supported version: either the C++ deletes the rows of the closure relation's descendants
+    itself, or a trigger on the crate table deletes the child rows *and* triggers recurse (the
+    connection sets PRAGMA recursive_triggers; SQLite's default is off, so a trigger's own DELETE
+    does not fire it again)."""
+    from . import c13
+    order = rowrules.enum_order(prog)
+    supported = [en for en in order if en in set(c13._supported(prog))]
+    cats = rowrules.version_catalogs(prog)
+    recursive_on = False
+    for f in prog.functions.values():
+        if f.body is None or f.is_pattern or not prog.in_repo(f.file):
+            continue
+        for s_ in eff.sites(f):
+            if 'recursive_triggers' in s_.text.lower():
+                recursive_on = True
+    for gen, qn, closure in (('v1', V1 + 'engine_database_impl::remove_crate', ('cratehierarchy', 'listhierarchy')),
+                             ('v2', V2 + 'database_impl::remove_crate', ('playlistallchildren',))):
+        for f, ip, ret in evaluate(prog, cg, eff, qn):
+            chk.analysed(f)
+            dels = [w for w in ip.writes if w.kind == 'delete']
+            if not dels:
+                chk.unknown(T10, _short(qn), 'no DELETE reached from remove_crate')
+                continue
+            tables = sorted({(w.table or '').lower() for w in dels})
+            explicit = any(any(x[0] == 'loc' and (x[1] or '').lower() in closure for v in (w.where or {}).values()
+                               for x in vf.leaves(v)) for w in dels) or \
+                any((rd.table or '').lower() in closure for rd in ip.reads)
+            vs = [en for en in supported if rowrules._gen2(en) == (gen == 'v2')]
+            child_trig = {}
+            for en in vs:
+                hit = False
+                for cat in cats[en].values():
+                    for t in cat.triggers.values():
+                        if (t.event or '').upper() != 'DELETE' or (t.table or '').lower() not in tables:
+                            continue
+                        for b in (t.body or []):
+                            if b.kind == 'delete' and b.where is not None and \
+                                    re.search(r'parent\w*\s*=\s*old\s*\.\s*id', b.where.text().lower()):
+                                hit = True
+                child_trig[en] = hit
+            inst = '%s: the subtree of the removed crate is removed with it' % _short(qn)
+            if explicit:
+                chk.ok(T10, inst + ' (remove_crate reads the closure relation and deletes the descendants)', dels[0].loc)
+                continue
+            none = [en for en, h in child_trig.items() if not h]
+            if none:
+                chk.violation(T10, '%s|sub-crates survive' % _short(qn), dels[0].loc,
+                              '%s: not so - remove_crate deletes the row of the crate only (%s) and in %d schema '
+                              'version(s) (%s ...) no DELETE trigger removes the rows whose parent it was: the '
+                              'sub-crates stay in crates() with a parent() that is no longer valid' % (
+                                  inst, ', '.join(tables), len(none), ', '.join(none[:3])))
+            elif not recursive_on:
+                chk.violation(T10, '%s|grandchildren survive' % _short(qn), dels[0].loc,
+                              '%s: not so - the DELETE trigger removes the direct children, but triggers do not '
+                              'recurse (no connection sets PRAGMA recursive_triggers, SQLite\'s default is off) and '
+                              'remove_crate does not delete the descendants itself: crates two or more levels '
+                              'below stay in crates() with a parent() that is no longer valid' % inst)
+            else:
+                chk.ok(T10, inst + ' (child-deleting trigger with recursive triggers on)', dels[0].loc)
 
 
 def cycle_guard(prog, cg, eff, chk, T2, spec=None):
